@@ -28,7 +28,9 @@ EXPLANATION = (
     "by contracts, reproduce the data at the data points (forces are copies of the raveled data coordinates => the system is square; "
     "predict and jacobian share kernel, mindist and force order => sum_t K(p,t) f_t = (J f)_p by the sum congruence rule; J f = d is "
     "the ASSUMED exactness of an undamped, nonsingular solve); the REAL KNeighbors(k=1).fit + predict return each datum at its own "
-    "point for pairwise-distinct points (nearest neighbour of a data point is itself: derived from the kd-tree contract). The claim "
+    "point for pairwise-distinct points (nearest neighbour of a data point is itself: derived from the kd-tree contract); the "
+    "composition contracts of Chain / Vector fit and predict (every step exactly once and in order, prediction = sum over exactly the "
+    "steps that can predict, also when steps share a label) carry the clause 'any Chain or Vector assembled from them'. The claim "
     "'up to a tolerance proportional to the conditioning' is floating-point behaviour of scikit-learn/scipy: BOUNDED run-time contract "
     "over scales 1e-2..1e6, offsets up to 1e3 x extent, all exact-interpolator configurations incl. Chain/Vector compositions, and "
     "Trend(N) on random polynomials of degree <= N for N = 0..4 (reproduced at other locations). Never counted as proved."
